@@ -672,6 +672,7 @@ func (vfs *OrefaFS) OpenFile(name string, flag int, perm fs.FileMode) (avfs.File
 				verifYield(&child.mu, true)
 				child.mu.Lock()
 				child.truncate(0)
+				child.mtime = time.Now().UnixNano()
 				child.mu.Unlock()
 			}
 
